@@ -162,7 +162,25 @@ func c07TemplateCase(rt *rapid.T) *c07Case {
 			fmt.Fprintf(&f, "func f%d() {\n\tif %s {\n\t}\n}\n\n", i, site)
 		}
 	}
-	return &c07Case{Patch: p, File: f.String(), Family: "template"}
+	// A companion change in the same patch that always applies and cannot
+	// break anything: whether the result of the run is looked at again must
+	// not depend on which change was the last to apply.
+	family := "template"
+	switch rapid.IntRange(0, 7).Draw(rt, "companion") {
+	case 0:
+		f.WriteString("var renameMe = 1\n")
+		p = p + "\n@@\n@@\n-renameMe\n+renamed\n"
+		family = "template+rename-after"
+	case 1:
+		f.WriteString("var renameMe = 1\n")
+		p = "@@\n@@\n-renameMe\n+renamed\n\n" + p
+		family = "template+rename-before"
+	case 2:
+		f.WriteString("func tailf() {\n\ttail(1)\n}\n")
+		p = p + "\n@@\nvar z expression\n@@\n-tail(z)\n+tailed(z)\n"
+		family = "template+call-after"
+	}
+	return &c07Case{Patch: p, File: f.String(), Family: family}
 }
 
 var c07Opts = modelOpts{
